@@ -43,6 +43,7 @@ type Exec struct {
 	ltrack       *ledgerTrack
 	crashStart   int
 	badBlocks    map[int]bool
+	faulting     bool
 }
 
 func errEnum(err error) string {
@@ -595,7 +596,35 @@ func (e *Exec) exec(line string) (ans string) {
 		e.caseOut = nil
 	}
 	e.caseOps = append(e.caseOps, line)
-	ans = e.exec1(op, pos, kv, line)
+	if kv["fault"] == "1" {
+		// injected storage write error: the next write group (either database) fails
+		before := ""
+		if e.w != nil {
+			before = e.observe(e.w.Main) + " pool=" + e.poolStr() + " L=" + e.ledgerObs()
+		}
+		at := kvmem.Seq()
+		kvmem.FailAt = at
+		e.faulting = true
+		ans = e.exec1(op, pos, kv, line)
+		e.faulting = false
+		kvmem.FailAt = -1
+		if kvmem.Seq() > at {
+			// the fault was consumed: the operation must have failed and left no trace
+			if ans == "ok" || strings.HasPrefix(ans, "ok-") {
+				e.violate("fault-ignored", fmt.Sprintf("op %q reported success although its storage write failed", line), "")
+			}
+			if op == "walk" {
+				state.VerifWaitRecover()
+			}
+			after := e.observe(e.w.Main) + " pool=" + e.poolStr() + " L=" + e.ledgerObs()
+			if after != before {
+				e.violate("failed-write-left-trace", fmt.Sprintf("op %q failed on an injected write error but changed observable state: before {%s} after {%s}", line, before, after), "")
+			}
+			ans = "fault"
+		}
+	} else {
+		ans = e.exec1(op, pos, kv, line)
+	}
 	e.caseOut = append(e.caseOut, ans)
 	return ans
 }
